@@ -2127,7 +2127,11 @@ class Interp(object):
         if name in ("copy",):
             return x
         if name == "astype":
-            return Rat.atom(Fn("astype", (x, _vk2(args[0] if args else kwargs.get("dtype")))))
+            dt_ = args[0] if args else kwargs.get("dtype")
+            dtxt = (dt_.dotted if isinstance(dt_, ExtRef) else dt_ if isinstance(dt_, str) else "").split(".")[-1]
+            if dtxt in ("float", "float64", "double", "float_", "longdouble", "float128", "f8", "d", "complex", "complex128", "cdouble"):
+                return x            # widening to (at least) double precision keeps every value
+            return Rat.atom(Fn("astype", (x, _vk2(dt_))))
         if name in ("conj", "conjugate"):
             return x.conj()
         if name == "flatten" or name == "ravel":
